@@ -49,7 +49,12 @@ struct World {
    {
       const Lexicon& L = lex;
       for (int i = 0; i < 12; ++i) ids.push_back(&lex.get_identifier(widen("n" + std::to_string(i))));
-      types = { &L.int_type(), &L.bool_type(), &L.double_type(), &lex.get_pointer(L.char_type()) };
+      // every built-in (the ellipsis type is what a catch-all handler is declared with), compound and user-defined types
+      types = { &L.void_type(), &L.bool_type(), &L.char_type(), &L.schar_type(), &L.uchar_type(), &L.wchar_t_type(), &L.char8_t_type(), &L.char16_t_type(), &L.char32_t_type(),
+                &L.short_type(), &L.ushort_type(), &L.int_type(), &L.uint_type(), &L.long_type(), &L.ulong_type(), &L.long_long_type(), &L.ulong_long_type(), &L.float_type(),
+                &L.double_type(), &L.long_double_type(), &L.ellipsis_type(), &L.typename_type(), &L.class_type(), &L.union_type(), &L.enum_type(), &L.namespace_type(),
+                &lex.get_pointer(L.char_type()), &lex.get_reference(L.int_type()), &lex.get_rvalue_reference(L.double_type()), &lex.get_qualified(Qualifiers(1), L.int_type()),
+                &lex.get_auto(), &L.nullptr_value().type() };
    }
 
    std::string where() { return J().n("regions", (long long)regions.size()).s("program", trace.size() > 500 ? trace.substr(trace.size() - 500) : trace).str(); }
@@ -112,11 +117,11 @@ struct World {
          if (!regions[p].as_impl) { trace += "(n/a) "; return; }
          auto* r = regions[p].as_impl->make_subregion(); add(*r, p, nullptr, c, r); break; }
       case CLASS: {
-         auto* k = lex.make_class(parent); int ri = add(k->region(), p, k, c, &k->body);
+         auto* k = lex.make_class(parent); int ri = add(k->region(), p, k, c, &k->body); types.push_back(k); types.push_back(&lex.get_reference(*k));
          classes.push_back({ k, {}, -1 });
          // the base-subobject region is created with the class, enclosed by the class's enclosing region and owned by the class
          (void)ri; break; }
-      case UNION: { auto* k = lex.make_union(parent); add(k->region(), p, k, c, &k->body); break; }
+      case UNION: { auto* k = lex.make_union(parent); add(k->region(), p, k, c, &k->body); types.push_back(k); break; }
       case ENUM: { auto* k = lex.make_enum(parent, rng.chance(50) ? Enum::Kind::Scoped : Enum::Kind::Legacy); add(k->region(), p, k, c); enums.push_back({ k, {} }); break; }
       case NAMESPACE: { auto* k = lex.make_namespace(parent); add(k->region(), p, k, c, &k->body); break; }
       case CLOSURE: { auto* k = lex.make_closure(parent); add(k->region(), p, k, c, &k->body); break; }
